@@ -25,9 +25,35 @@ type c10Op struct {
 	N    int    `json:"n,omitempty"`    // tick: number of ticks
 }
 
+// c10Expand turns bulk ops (bset/bmove/bremove over keys Key..Key+N-1) into single ops.
+func c10Expand(ops []c10Op) []c10Op {
+	bulk := false
+	for _, o := range ops {
+		if o.Kind == "bset" || o.Kind == "bmove" || o.Kind == "bremove" {
+			bulk = true
+		}
+	}
+	if !bulk {
+		return ops
+	}
+	var out []c10Op
+	for _, o := range ops {
+		switch o.Kind {
+		case "bset", "bmove", "bremove":
+			for k := 0; k < o.N; k++ {
+				out = append(out, c10Op{Kind: o.Kind[1:], Key: o.Key + k, Val: o.Val, M: o.M})
+			}
+		default:
+			out = append(out, o)
+		}
+	}
+	return out
+}
+
 type c10Case struct {
 	Slots int     `json:"slots"`
 	Ops   []c10Op `json:"ops"`
+	Lat   int     `json:"lat,omitempty"` // slow-exec rule: every execute callback sleeps Lat half-intervals
 }
 
 // verifTicker: unbuffered, so a tick is consumed by the wheel before Tick returns.
@@ -101,7 +127,7 @@ func c10Interp(t *testing.T, c c10Case) (v kit.Verdict) {
 			}
 			return true
 		}
-		for i, o := range c.Ops {
+		for i, o := range c10Expand(c.Ops) {
 			what := fmt.Sprintf("op %d %+v (ticks=%d)", i, o, ticks)
 			switch o.Kind {
 			case "set", "move", "remove":
@@ -423,4 +449,189 @@ func TestVerif_C10_exhaustive(t *testing.T) {
 	}
 	kit.Enumerate(t, "C10", "wheel-exhaustive", c10Enumerate(maxN),
 		func(c c10Case) kit.Verdict { return c10Interp(t, c) })
+}
+
+
+// ---- bulk churn histories: the wheel's key index (SafeMap) compacts itself after
+// ~10000 deletions; the same model must hold across those internal reorganisations.
+func c10BulkGen(rt *rapid.T) c10Case {
+	c := c10Case{Slots: rapid.IntRange(20, 120).Draw(rt, "slots")}
+	long := rapid.IntRange(3000, 6000).Draw(rt, "long")
+	pend := rapid.IntRange(0, 1600).Draw(rt, "pending")
+	if pend > 0 {
+		c.Ops = append(c.Ops, c10Op{Kind: "bset", Key: 0, N: pend, Val: 1, M: long})
+	}
+	churn := rapid.IntRange(8500, 12500).Draw(rt, "churn")
+	block := rapid.IntRange(400, 1500).Draw(rt, "block")
+	key := 100000
+	for done := 0; done < churn; done += block {
+		if rapid.IntRange(0, 3).Draw(rt, "how") == 0 {
+			c.Ops = append(c.Ops, c10Op{Kind: "bset", Key: key, N: block, Val: 2, M: 5}, c10Op{Kind: "bremove", Key: key, N: block})
+		} else {
+			c.Ops = append(c.Ops, c10Op{Kind: "bset", Key: key, N: block, Val: 2, M: 1}, c10Op{Kind: "tick", N: 1})
+		}
+		key += block
+	}
+	fresh := rapid.IntRange(1, 60).Draw(rt, "fresh")
+	c.Ops = append(c.Ops, c10Op{Kind: "bset", Key: 500000, N: fresh, Val: 3, M: rapid.IntRange(20, 200).Draw(rt, "freshdelay")})
+	if pend > 0 {
+		drop := rapid.IntRange(0, pend).Draw(rt, "drop")
+		if drop > 0 {
+			c.Ops = append(c.Ops, c10Op{Kind: "bremove", Key: 0, N: drop})
+		}
+	}
+	n := rapid.IntRange(1, 12).Draw(rt, "tail")
+	for i := 0; i < n; i++ {
+		k := 500000 + rapid.IntRange(0, fresh-1).Draw(rt, "fk")
+		switch rapid.IntRange(0, 4).Draw(rt, "tk") {
+		case 0:
+			c.Ops = append(c.Ops, c10Op{Kind: "remove", Key: k})
+		case 1:
+			c.Ops = append(c.Ops, c10Op{Kind: "move", Key: k, M: rapid.IntRange(1, 300).Draw(rt, "tm")})
+		case 2:
+			c.Ops = append(c.Ops, c10Op{Kind: "set", Key: k, Val: 4, M: rapid.IntRange(1, 300).Draw(rt, "tm")})
+		case 3:
+			c.Ops = append(c.Ops, c10Op{Kind: "tick", N: rapid.IntRange(1, 40).Draw(rt, "tn")})
+		default:
+			c.Ops = append(c.Ops, c10Op{Kind: "bremove", Key: 0, N: rapid.IntRange(1, 1600).Draw(rt, "late")})
+		}
+	}
+	return c
+}
+
+func TestVerif_C10_bulk(t *testing.T) {
+	kit.Run(t, "C10", "wheel-bulk", kit.Opts{Quick: 40, Thorough: 1600}, c10BulkGen,
+		func(c c10Case) kit.Verdict {
+			v := c10Interp(t, c)
+			v.NonTrivial = v.Fail == ""
+			return v
+		})
+}
+
+// ---- slow execute callbacks: a callback that is still running when later ticks fire
+// further tasks must not disturb them. Timing of a delayed callback's start is not
+// predictable, so this rule checks the exactly-once part only: the multiset of executed
+// (key,value) pairs equals the multiset the model says became due.
+func c10SlowInterp(t *testing.T, c c10Case) (v kit.Verdict) {
+	var fail string
+	overlapped := false
+	res := kit.Bubble(t, func() {
+		var mu sync.Mutex
+		got := map[[2]int]int{}
+		running := 0
+		ticks := 0
+		tk := &c10Ticker{c: make(chan time.Time), stopped: make(chan struct{})}
+		lat := time.Duration(c.Lat) * c10Interval / 2
+		w, err := newTimingWheelWithClock(c10Interval, c.Slots, func(k, val any) {
+			mu.Lock()
+			got[[2]int{k.(int), val.(int)}]++
+			running++
+			if running > 1 {
+				overlapped = true
+			}
+			mu.Unlock()
+			time.Sleep(lat)
+			mu.Lock()
+			running--
+			mu.Unlock()
+		}, tk)
+		if err != nil {
+			fail = err.Error()
+			return
+		}
+		model := map[int]c10Pending{}
+		want := map[[2]int]int{}
+		due := func() {
+			for k, p := range model {
+				if p.due == ticks {
+					want[[2]int{k, p.val}]++
+					delete(model, k)
+				}
+			}
+		}
+		for _, o := range c.Ops {
+			switch o.Kind {
+			case "set":
+				_ = w.SetTimer(o.Key, o.Val, time.Duration(o.M)*c10Interval)
+				model[o.Key] = c10Pending{val: o.Val, due: ticks + o.M}
+			case "move":
+				_ = w.MoveTimer(o.Key, time.Duration(o.M)*c10Interval)
+				if p, ok := model[o.Key]; ok {
+					model[o.Key] = c10Pending{val: p.val, due: ticks + o.M}
+				}
+			case "remove":
+				_ = w.RemoveTimer(o.Key)
+				delete(model, o.Key)
+			case "tick":
+				for j := 0; j < o.N; j++ {
+					ticks++
+					tk.tick()
+					kit.Wait()
+					due()
+				}
+			case "adv":
+				time.Sleep(time.Duration(o.N) * c10Interval / 2)
+			}
+			kit.Wait()
+		}
+		for len(model) > 0 {
+			ticks++
+			tk.tick()
+			kit.Wait()
+			due()
+		}
+		time.Sleep(time.Duration(len(want)+2) * (lat + c10Interval)) // let every pending callback finish
+		kit.Wait()
+		w.Stop()
+		mu.Lock()
+		defer mu.Unlock()
+		for k, n := range want {
+			if got[k] != n {
+				fail = fmt.Sprintf("task key=%d value=%d became due %d time(s) but was executed %d time(s); executed=%v due=%v", k[0], k[1], n, got[k], got, want)
+				return
+			}
+		}
+		for k, n := range got {
+			if want[k] != n {
+				fail = fmt.Sprintf("task key=%d value=%d executed %d time(s) but became due %d time(s); executed=%v due=%v", k[0], k[1], n, want[k], got, want)
+				return
+			}
+		}
+	})
+	v.NonTrivial = overlapped
+	if overlapped {
+		v.Classes = append(v.Classes, "callbacks-overlap-later-tick")
+	}
+	if fail != "" {
+		v.Fail = fail
+	} else if !res.OK() {
+		v.Fail = "bubble: " + res.String()
+	}
+	return v
+}
+
+func c10SlowGen(rt *rapid.T) c10Case {
+	c := c10Case{Slots: rapid.IntRange(1, 8).Draw(rt, "slots"), Lat: rapid.IntRange(1, 6).Draw(rt, "lat")}
+	nkeys := rapid.IntRange(2, 6).Draw(rt, "nkeys")
+	n := rapid.IntRange(3, 30).Draw(rt, "nops")
+	for i := 0; i < n; i++ {
+		switch rapid.IntRange(0, 9).Draw(rt, "kind") {
+		case 0, 1, 2, 3:
+			c.Ops = append(c.Ops, c10Op{Kind: "set", Key: rapid.IntRange(0, nkeys-1).Draw(rt, "key"), Val: rapid.IntRange(0, 9).Draw(rt, "val"), M: rapid.IntRange(1, 3).Draw(rt, "m")})
+		case 4:
+			c.Ops = append(c.Ops, c10Op{Kind: "move", Key: rapid.IntRange(0, nkeys-1).Draw(rt, "key"), M: rapid.IntRange(1, 3).Draw(rt, "m")})
+		case 5:
+			c.Ops = append(c.Ops, c10Op{Kind: "remove", Key: rapid.IntRange(0, nkeys-1).Draw(rt, "key")})
+		case 6, 7, 8:
+			c.Ops = append(c.Ops, c10Op{Kind: "tick", N: rapid.IntRange(1, 3).Draw(rt, "n")})
+		default:
+			c.Ops = append(c.Ops, c10Op{Kind: "adv", N: rapid.IntRange(1, 8).Draw(rt, "n")})
+		}
+	}
+	return c
+}
+
+func TestVerif_C10_slowexec(t *testing.T) {
+	kit.Run(t, "C10", "wheel-slow-exec", kit.Opts{Quick: 4000, Thorough: 160000}, c10SlowGen,
+		func(c c10Case) kit.Verdict { return c10SlowInterp(t, c) })
 }
